@@ -276,12 +276,17 @@ func (c *fsLinClient) step() {
 		if res["p"] == 0 {
 			c.known = append(c.known, [2]string{d, n})
 		}
-	default:
+	case x < 98:
 		c.call(map[string]any{"op": "list", "d": d}, func() map[string]any {
 			ns := append([]string{}, c.fs.List(d)...)
 			sort.Strings(ns)
 			return map[string]any{"names": ns}
 		})
+	default:
+		// a new directory of the client's own, while the others work in the shared ones
+		c.ntok++
+		nd := fmt.Sprintf("md%d-%d", c.g, c.ntok)
+		c.call(map[string]any{"op": "mkdir", "d": nd}, func() map[string]any { c.fs.Mkdir(nd); return nil })
 	}
 }
 
@@ -755,10 +760,102 @@ func C14(c *ev.Ctx) {
 	c.Set("rule", "evaluations = concurrent histories validated by FsLinTrace + forced schedules; distinct_nontrivial = operation responses that arrived while another client's operation was pending (real overlap) summed over histories")
 
 	dirAppendProbe(c)
+	replaceUnderReaders(c)
 	raceChild(c, "race-fs", "machine/filesys")
 }
 
 // dirAppendProbe: DirFs.Append of more than one page racing with ReadAt on another descriptor (known finding).
+// replaceUnderReaders: one client replaces an existing file again and again with AtomicCreate while others open, read
+// and list it. The name exists in every sequential order (it was created before anybody started and is never
+// deleted), so every Open must succeed, every read must return one of the installed contents in full, and every List
+// must show the name. Both implementations.
+func replaceUnderReaders(c *ev.Ctx) {
+	for ti, tn := range []string{"mem/method", "dir/method"} {
+		t := openFsTarget(tn, c.Scratch, 90+ti)
+		t.fs.Mkdir("cfgd")
+		content := func(k int) []byte { return bytes.Repeat([]byte{byte('A' + k%26)}, 40+k%7) }
+		t.fs.AtomicCreate("cfgd", "cfg", content(0))
+		rounds := c.Pick(400, 4000)
+		var stop atomic.Bool
+		var wg sync.WaitGroup
+		var mu sync.Mutex
+		bad := ""
+		note := func(s string) {
+			mu.Lock()
+			if bad == "" {
+				bad = s
+			}
+			mu.Unlock()
+		}
+		nOpen := atomic.Int64{}
+		for g := 0; g < 4; g++ {
+			wg.Add(1)
+			go func(g int) {
+				defer wg.Done()
+				for !stop.Load() {
+					if g == 3 {
+						found := false
+						if catchPanic(func() {
+							for _, n := range t.fs.List("cfgd") {
+								if n == "cfg" {
+									found = true
+								}
+							}
+						}) {
+							note("List panicked")
+						} else if !found {
+							note("List does not show the name although it exists in every sequential order")
+						}
+						continue
+					}
+					var data []byte
+					if catchPanic(func() {
+						f := t.fs.Open("cfgd", "cfg")
+						data = t.fs.ReadAt(f, 0, 64)
+						t.fs.Close(f)
+					}) {
+						note("Open / ReadAt of the name panicked although it exists in every sequential order")
+						continue
+					}
+					nOpen.Add(1)
+					ok := len(data) >= 40 && len(data) <= 46
+					for _, b := range data {
+						if b != data[0] {
+							ok = false
+						}
+					}
+					if ok && int(data[0]-'A') >= 0 && len(data) != 40+func() int {
+						// the length determines k mod 7, the letter k mod 26: they must fit one k
+						for k := 0; k < 182; k++ {
+							if byte('A'+k%26) == data[0] && 40+k%7 == len(data) {
+								return k % 7
+							}
+						}
+						return -1
+					}() {
+						ok = false
+					}
+					if !ok {
+						note(fmt.Sprintf("a read returned %d bytes %q...: not one of the installed contents in full", len(data), string(data[:min(8, len(data))])))
+					}
+				}
+			}(g)
+		}
+		for k := 1; k <= rounds && bad == ""; k++ {
+			if catchPanic(func() { t.fs.AtomicCreate("cfgd", "cfg", content(k)) }) {
+				note("AtomicCreate over the existing name panicked")
+			}
+		}
+		stop.Store(true)
+		wg.Wait()
+		t.close()
+		if bad != "" {
+			c.Violation("fs."+tn[:3]+".replace-under-readers", fmt.Sprintf("target %s: one client replaces cfgd/cfg %d times with AtomicCreate while three others open and read it and one lists the directory: %s", tn, rounds, bad), nil)
+		}
+		c.Set("replace_under_readers_"+tn[:3], fmt.Sprintf("%d replacements, %d successful opens", rounds, nOpen.Load()))
+	}
+}
+
 func dirAppendProbe(c *ev.Ctx) {
 	t := openFsTarget("dir/method", c.Scratch, 71)
 	defer t.close()
